@@ -60,7 +60,26 @@ def core_part(c, pid="P1", name="Pno"):
             objs.insert(objs.index(main), g)
     for x in c.get("x", []):
         objs.append(dict(x))
+    for k, d in enumerate(c.get("deco", [])):
+        apply_deco(pid, objs, d, k)
+    for a in c.get("attr", []):
+        if a[0] == "ks":
+            objs.append({"k": "ks", "s": a[1], "fifths": a[2], "mode": a[3]})
+        elif a[0] == "ts":
+            objs.append({"k": "ts", "s": a[1], "beats": a[2], "beat_type": a[3]})
+        elif a[0] == "clef":
+            objs.append({"k": "clef", "s": a[1], "staff": a[2], "sign": a[3], "line": a[4], "oct": a[5]})
+    if c.get("staves") == 2:
+        # initial clefs for both staves, as a two-staff MusicXML part has them
+        objs.insert(0, {"k": "clef", "s": 0, "staff": 2, "sign": "F", "line": 4, "oct": 0})
+        objs.insert(0, {"k": "clef", "s": 0, "staff": 1, "sign": "G", "line": 2, "oct": 0})
+    for a, b in c.get("rep", []):
+        objs.append({"k": "repeat", "s": a, "e": b})
+    for n, a, b in c.get("end", []):
+        objs.append({"k": "ending", "s": a, "e": b, "number": n})
     spec = {"id": pid, "name": name, "divs": q, "objs": objs}
+    if c.get("abbr"):
+        spec["abbr"] = c["abbr"]
     return M.finish_part(spec)
 
 
@@ -242,3 +261,311 @@ def grace_ok(case):
                         if ir.midi_pitch(x["step"], x.get("alter"), x["oct"]) >= ir.midi_pitch(m["step"], m.get("alter"), m["oct"]):
                             return False
     return True
+
+
+# ---------------------------------------------------------------------------------------------
+# C: decorations
+
+
+def note_decos(pid, ev):
+    """decoration instances attached to notes: list of (kind, patch) where patch is applied by apply_deco"""
+    out = []
+    idx = [i for i, e in enumerate(ev) if e[0] in ("n", "u")]
+    for i in idx:
+        out.append(("art1", ["art", i, ["staccato"]]))
+        out.append(("art2", ["art", i, ["accent", "tenuto"]]))
+        out.append(("fing", ["fing", i, 3]))
+        out.append(("stem", ["stem", i, "up"]))
+        out.append(("stem", ["stem", i, "down"]))
+        out.append(("nferm", ["nferm", i]))
+    for i in idx:
+        for j in idx:
+            # a slur runs forward in time (the importer drops a slur that stops before it starts)
+            if (ev[i][1], i) <= (ev[j][1], j):
+                out.append(("slur", ["slur", i, j]))
+    return out
+
+
+def time_decos(meas, total):
+    out = []
+    bars = sorted({m[0] for m in meas} | {m[1] for m in meas})
+    for t in range(0, total):
+        out.append(("dyn", ["dyn", t, "p"]))
+        out.append(("sfz", ["sfz", t, "sfz"]))
+        out.append(("tempodir", ["tempodir", t, "adagio"]))
+        out.append(("tempo", ["tempo", t, 100]))
+        out.append(("words", ["words", t, "hello"]))
+        out.append(("dynwords", ["dynwords", t, None, "crescendo"]))
+        for u in range(t + 1, total + 1):
+            out.append(("wedge", ["wedge", t, u, "+"]))
+            out.append(("wedge", ["wedge", t, u, "-"]))
+            out.append(("dashes", ["dynwords", t, u, "crescendo"]))
+    for t in range(0, total + 1):
+        if t in bars:
+            if t < total:
+                out.append(("bferm", ["bferm", t, "left"]))
+            if t > 0:
+                out.append(("bferm", ["bferm", t, "right"]))
+        else:
+            out.append(("bferm", ["bferm", t, "middle"]))
+    return out
+
+
+def apply_deco(pid, objs, d, k):
+    """apply decoration instance d (k = running index, for unique names) to the ir object list"""
+    kind = d[0]
+    by_id = {o.get("id"): o for o in objs if o.get("id")}
+
+    def nid(i):
+        return "%sn%d" % (pid, i)
+    if kind == "art":
+        by_id[nid(d[1])]["art"] = sorted(set(by_id[nid(d[1])].get("art", [])) | set(d[2]))
+    elif kind == "fing":
+        by_id[nid(d[1])]["fing"] = d[2]
+    elif kind == "stem":
+        by_id[nid(d[1])]["stem"] = d[2]
+    elif kind == "nferm":
+        n = by_id[nid(d[1])]
+        if not any(o["k"] == "fermata" and o.get("ref") == n["id"] for o in objs):
+            objs.append({"k": "fermata", "s": n["s"], "ref": n["id"]})
+    elif kind == "slur":
+        objs.append({"k": "slur", "a": nid(d[1]), "b": nid(d[2])})
+    elif kind == "tuplet":
+        a = by_id[nid(d[1])]
+        objs.append({"k": "tuplet", "a": nid(d[1]), "b": nid(d[2]), "actual": 3, "normal": 2,
+                     "atype": a["sym"]["type"], "ntype": a["sym"]["type"]})
+    elif kind == "dyn":
+        objs.append({"k": "dyn", "s": d[1], "text": d[2]})
+    elif kind == "sfz":
+        objs.append({"k": "sfz", "s": d[1], "text": d[2]})
+    elif kind == "tempodir":
+        objs.append({"k": "tempodir", "s": d[1], "text": d[2]})
+    elif kind == "tempo":
+        objs.append({"k": "tempo", "s": d[1], "bpm": d[2], "unit": "q"})
+    elif kind == "words":
+        objs.append({"k": "words", "s": d[1], "text": d[2]})
+    elif kind == "wedge":
+        objs.append({"k": "wedge", "s": d[1], "e": d[2], "dir": d[3]})
+    elif kind == "dynwords":
+        o = {"k": "dynwords", "s": d[1], "text": d[3]}
+        if d[2] is not None:
+            o["e"] = d[2]
+        objs.append(o)
+    elif kind == "bferm":
+        objs.append({"k": "fermata", "s": d[1], "ref": d[2], "bar": True})
+    else:
+        raise ValueError(kind)
+
+
+def _note_cores(meas, nmax, voices=(1, 2), durs=(1, 2, 3, 4)):
+    alpha = [["n", s, e, v, v] for lo, hi in meas for (s, e) in spans(lo, hi, durs) for v in voices]
+    for n in range(1, nmax + 1):
+        for comb in combinations(alpha, n):
+            yield [list(x) for x in comb]
+
+
+def gen_C_single(layout, nmin, nmax):
+    """every single decoration instance on every core of nmin..nmax notes of the layout"""
+    meas, ts = layout
+    total = meas[-1][1]
+    td = time_decos(meas, total)
+    for ev in _note_cores(meas, nmax):
+        if len(ev) < nmin:
+            continue
+        for kind, d in note_decos("P1", ev) + td:
+            yield {"sp": "C1", "m": [list(m) for m in meas], "ts": ts, "ev": ev, "deco": [d]}
+
+
+C_FIXED_CORES = [
+    ([(0, 4)], [[0, 2, 4]], [["n", 0, 1, 1, 1], ["n", 1, 2, 1, 1], ["n", 2, 4, 1, 1]]),
+    ([(0, 2), (2, 4)], [[0, 1, 4]], [["n", 0, 2, 1, 1], ["n", 2, 4, 1, 1], ["n", 1, 2, 2, 2], ["n", 2, 3, 2, 2]]),
+    ([(0, 4)], [[0, 2, 4]], [["n", 0, 2, 1, 1], ["n", 0, 2, 1, 1], ["n", 3, 4, 1, 1]]),
+]
+
+
+def gen_C_pairs():
+    """all unordered pairs of decoration instances (same instance twice excluded) on the fixed cores"""
+    for meas, ts, ev in C_FIXED_CORES:
+        total = meas[-1][1]
+        decos = [d for _, d in note_decos("P1", ev) + time_decos(meas, total)]
+        for a, b in combinations(decos, 2):
+            if a[0] == b[0] and a[0] in ("stem", "fing") and a[1] == b[1]:
+                continue  # two values for one attribute of one note
+            yield {"sp": "C2", "m": [list(m) for m in meas], "ts": ts, "ev": ev, "deco": [a, b]}
+
+
+def gen_C_tuplets(second_voice):
+    """six triplet eighths (divisions 3) in one 2/4 measure; every bracket (i <= j) and every pair of
+    brackets (nested, overlapping, adjacent, identical ends); optionally two quarters in voice 2"""
+    ev = [["n", i, i + 1, 1, 1, i % 3] for i in range(6)]
+    if second_voice:
+        ev += [["n", 0, 3, 2, 2, 3], ["n", 3, 6, 2, 2, 4]]
+    br = [(i, j) for i in range(6) for j in range(i, 6)]
+    base = {"sp": "C3", "q": [[0, 3]], "m": [[0, 6]], "ev": ev}
+    for b in br:
+        yield dict(base, deco=[["tuplet", b[0], b[1]]])
+    for a, b in combinations(br, 2):
+        yield dict(base, deco=[["tuplet", a[0], a[1]], ["tuplet", b[0], b[1]]])
+
+
+def gen_C_slurpairs():
+    """all pairs of slurs over four notes in two voices (nested, overlapping, crossing voices)"""
+    ev = [["n", 0, 1, 1, 1], ["n", 1, 2, 1, 1], ["n", 2, 4, 1, 1], ["n", 0, 2, 2, 2], ["n", 2, 4, 2, 2]]
+    sl = [d for k, d in note_decos("P1", ev) if k == "slur"]
+    for a, b in combinations(sl, 2):
+        yield {"sp": "C4", "m": [[0, 4]], "ev": ev, "deco": [a, b]}
+    for a, b, c in combinations(sl, 3):
+        yield {"sp": "C4", "m": [[0, 4]], "ev": ev, "deco": [a, b, c]}
+
+
+# ---------------------------------------------------------------------------------------------
+# D: attribute changes
+
+
+def gen_D_divisions():
+    """a divisions change at every grid position of a 2/4 measure (also at the barline of a second measure),
+    every pair (old, new) of divisions from {1,2,3,4}; cores of <=2 events that do not cross the change"""
+    for q0 in (1, 2, 3, 4):
+        for q1 in (1, 2, 3, 4):
+            if q0 == q1:
+                continue
+            # first quarter in q0 units, second quarter in q1 units; then a second measure in q1 units
+            for two in (False, True):
+                segs = [(0, q0), (q0, q0 + q1)]
+                meas = [[0, q0 + q1]]
+                if two:
+                    meas = [[0, q0], [q0, q0 + 2 * q1]]
+                    segs = [(0, q0), (q0, q0 + 2 * q1)]
+                alpha = []
+                for (lo, hi), q in zip(segs, (q0, q1)):
+                    durs = [d for d in range(1, hi - lo + 1) if M.sym_for(__import__("fractions").Fraction(d, q)) is not None]
+                    for (s, e) in spans(lo, hi, durs):
+                        for v in (1, 2):
+                            alpha.append(["n", s, e, v, v])
+                            if v == 1:
+                                alpha.append(["r", s, e, v, v])
+                for n in (1, 2):
+                    for comb in combinations(alpha, n):
+                        yield {"sp": "D1", "q": [[0, q0], [q0, q1]], "m": meas,
+                               "ts": [[0, 1, 4]] if two else [[0, 2, 4]], "ev": [list(x) for x in comb]}
+
+
+def gen_D_attributes():
+    """key, time and clef changes (and a divisions change 2->4 that keeps the grid) at every grid position of
+    two 2/4 measures, alone and in pairs at possibly different positions; cores: three fixed ones"""
+    cores = [
+        [["n", 0, 2, 1, 1], ["n", 2, 4, 1, 1], ["n", 4, 8, 1, 1]],
+        [["n", 0, 4, 1, 1], ["n", 0, 1, 2, 2], ["n", 3, 4, 2, 2], ["n", 5, 6, 2, 2]],
+        [["n", 1, 2, 1, 1], ["r", 4, 6, 1, 1]],
+    ]
+    kinds = []
+    for t in range(0, 8):
+        kinds.append(["ks", t, -3, "minor"])
+        kinds.append(["ks", t, 2, None])
+        kinds.append(["ts", t, 3, 8])
+        kinds.append(["clef", t, 1, "F", 4, 0])
+        kinds.append(["clef", t, 2, "C", 3, -1])
+    for ev in cores:
+        for a in kinds:
+            yield {"sp": "D2", "m": [[0, 4], [4, 8]], "ev": ev, "attr": [a], "staves": 2}
+        for a, b in combinations(kinds, 2):
+            if a[0] == b[0] and a[1] == b[1] and (a[0] != "clef" or a[2] == b[2]):
+                continue  # two signatures of one kind (or two clefs of one staff) at one time
+            yield {"sp": "D2", "m": [[0, 4], [4, 8]], "ev": ev, "attr": [a, b], "staves": 2}
+
+
+# ---------------------------------------------------------------------------------------------
+# E: parts and part groups
+
+
+def _trees(nparts):
+    """all ordered forests with exactly nparts leaves, groups non-empty, nesting depth <= 2"""
+    def forests(n, depth):
+        # sequences of items using exactly n leaves
+        if n == 0:
+            yield []
+            return
+        # first item is a leaf
+        for rest in forests(n - 1, depth):
+            yield ["P"] + rest
+        # first item is a group with k leaves
+        if depth > 0:
+            for k in range(1, n + 1):
+                for inner in forests(k, depth - 1):
+                    for rest in forests(n - k, depth):
+                        yield [inner] + rest
+    return list(forests(nparts, 2))
+
+
+PART_CORES = [
+    {"q": [[0, 2]], "m": [[0, 4]], "ev": [["n", 0, 2, 1, 1], ["n", 2, 3, 1, 1]], "deco": [["slur", 0, 1], ["wedge", 0, 2, "+"]]},
+    {"q": [[0, 4]], "m": [[0, 8]], "ev": [["n", 0, 8, 1, 1], ["n", 2, 4, 2, 2]], "deco": [["slur", 0, 0], ["wedge", 0, 4, "-"]]},
+    {"q": [[0, 1]], "m": [[0, 2]], "ev": [["r", 0, 1, 1, 1], ["n", 1, 2, 1, 1]], "deco": [["dynwords", 0, 1, "crescendo"]]},
+]
+
+
+def gen_E_structure():
+    """all part/group forests with <=3 parts and nesting depth <=2; every group gets symbol/name variants by
+    position; the parts differ in divisions, length and decorations (shared export counters)"""
+    syms = [("bracket", "Grp"), (None, None), ("brace", None), (None, "Strings")]
+    for n in (1, 2, 3):
+        for variant in (0, 1):
+            for tree in _trees(n):
+                cnt = {"p": 0, "g": 0}
+
+                def rec(items, depth):
+                    out = []
+                    for x in items:
+                        if x == "P":
+                            i = cnt["p"]
+                            cnt["p"] += 1
+                            c = dict(PART_CORES[(i + variant) % 3])
+                            c["id"] = "P%d" % (i + 1)
+                            c["name"] = [None, "Violin", "Pno"][(i + variant) % 3]
+                            if (i + variant) % 2:
+                                c["abbr"] = "V."
+                            out.append(c)
+                        else:
+                            g = cnt["g"]
+                            cnt["g"] += 1
+                            sy, nm = syms[(g + variant) % 4]
+                            out.append({"group": {"symbol": sy, "name": nm, "number": depth + 1}, "children": rec(x, depth + 1)})
+                    return out
+
+                yield {"sp": "E", "parts": rec(tree, 0)}
+
+
+# ---------------------------------------------------------------------------------------------
+# F: repeats and endings
+
+
+def gen_F_repeats():
+    """three 1/4 measures; every set of pairwise disjoint repeats between barlines, combined with no ending,
+    one ending, or endings 1 and 2 on adjacent barline intervals; measures filled with one note each or
+    only the middle one"""
+    bars = [0, 2, 4, 6]
+    ivs = [(a, b) for a in bars for b in bars if a < b]
+    reps = [()]
+    for n in (1, 2, 3):
+        for comb in combinations(ivs, n):
+            if all(x[1] <= y[0] for x, y in zip(comb, comb[1:])):
+                reps.append(comb)
+    ends = [()]
+    for iv in ivs:
+        ends.append(((1, iv[0], iv[1]),))
+    for a in bars:
+        for b in bars:
+            for c in bars:
+                if a < b < c:
+                    ends.append(((1, a, b), (2, b, c)))
+    cores = [
+        [["n", 0, 2, 1, 1], ["n", 2, 4, 1, 1], ["n", 4, 6, 1, 1]],
+        [["n", 2, 3, 1, 1]],
+    ]
+    for ev in cores:
+        for r in reps:
+            for en in ends:
+                if not r and not en:
+                    continue
+                yield {"sp": "F", "m": [[0, 2], [2, 4], [4, 6]], "ts": [[0, 1, 4]], "ev": ev,
+                       "rep": [list(x) for x in r], "end": [list(x) for x in en]}
